@@ -46,7 +46,7 @@ func suiteV07(c *vctx) {
 	nf := 3
 	ntok := 12
 	if c.thorough() {
-		nf, ntok = 10, 60
+		nf, ntok = 8, 20 // (every protocol line carries the factory's sealed set: the volume grows with ntok squared)
 	}
 	allNonces := map[string]bool{}
 	distinct := true
@@ -116,7 +116,7 @@ func suiteV07(c *vctx) {
 			}
 			// every single-bit mutation of the decoded content (sampled per token in quick)
 			for bit := 0; bit < len(raw)*8; bit++ {
-				if !c.thorough() && ti >= 2 && r.Intn(8) != 0 {
+				if (!c.thorough() && ti >= 2 || ti >= 4) && r.Intn(8) != 0 {
 					continue
 				}
 				m := append([]byte(nil), raw...)
@@ -125,7 +125,7 @@ func suiteV07(c *vctx) {
 			}
 			// every single-character mutation of the text (to a neighbouring alphabet character)
 			for pos := 0; pos < len(text); pos++ {
-				if !c.thorough() && ti >= 2 && r.Intn(6) != 0 {
+				if (!c.thorough() && ti >= 2 || ti >= 4) && r.Intn(6) != 0 {
 					continue
 				}
 				al := "ABCDEFGHIJKLMNOPQRSTUVWXYZabcdefghijklmnopqrstuvwxyz0123456789-_=:+/ \n"
@@ -135,7 +135,7 @@ func suiteV07(c *vctx) {
 			}
 			// every prefix / suffix truncation (sampled)
 			for k := 0; k < len(text); k++ {
-				if c.thorough() || r.Intn(5) == 0 {
+				if c.thorough() && ti < 4 || r.Intn(5) == 0 {
 					present("prefix", text[:k])
 					present("suffix", text[k:])
 				}
